@@ -1,3 +1,4 @@
+import SqlgrepModel.Lemmas.FloatArith
 import SqlgrepModel.Model.Eval
 import SqlgrepModel.Lemmas.ValueOrder
 import SqlgrepModel.Lemmas.NumericOrder
@@ -24,9 +25,12 @@ A′. **Leap seconds**: `leap_second_plus_interval`, `plain_timestamp_arithmetic
    `make_timestamp_iff7`, `make_timestamp_type_error7` (D64, repaired).
 B. **Numeric**: `least_is_lower_bound`, `greatest_is_upper_bound`, `least_greatest_null`,
    `least_greatest_type_error`, `abs_int`, `pow_int` / `pow_int_iff`.
-   REAL: `sqrt`, `pow(REAL, REAL)` and REAL arithmetic are the IEEE-754 operations of Lean's `Float` (`F64.sqrt`,
-   `F64.pow` in Model/Float.lean run the same hardware operations as Rust); they are opaque to the kernel, so there
-   is NO theorem about their values — the differential correspondence carries them. `least`/`greatest`/`abs` on REAL
+   REAL: `+ − × ÷`, `sqrt` and INT→REAL are computed exactly on the bit patterns (`Model/FloatArith.lean`: the correctly
+   rounded result of the exact operation, IEEE-754; compared with the hardware on every case): `real_add_is_nearest`,
+   `real_add_exact`, `real_mul_is_nearest`, `real_div_is_nearest`, `real_add_comm`, `real_mul_comm`, anchors by
+   `decide +kernel` (`0.1 + 0.2`, `1e308 + 1e308 = inf`, `5.0 / 2.0`, `sqrt 2.25`, `sqrt 2`, signed zeros, NaN cases).
+   `pow(REAL, REAL)` is Rust's `powf` = the platform's libm, which is NOT correctly rounded: it stays outside (hardware
+   `Float.pow` in the driver, a shipped fact end to end) — no theorem about its value. `least`/`greatest`/`abs` on REAL
    are bit-level definitions (`F64.fmin`, `F64.fmax`, `F64.abs`) and are covered here.
 C. **Text**: `length_is_code_points`, `upper_lower_ascii`, `case_maps_exactly_the_letters`,
    `upper_lower_ascii_chars`, `upper_lower_idempotent`; non-ASCII case mapping is the shipped Unicode table (trusted:
@@ -1254,5 +1258,83 @@ example : castValue {} (.int (-42)) .text = .ok (.text [45, 52, 50]) ∧
   · rw [(cast_text_cases {} _).2.1]; rfl
   · rw [(cast_text_cases {} _).2.1]; rfl
 example : inI64 (-9223372036854775808) = true := by decide
+
+/-! ### B′. REAL arithmetic: IEEE-754, exactly -/
+
+/-- `x + y` on REALs is the model's exact addition … -/
+theorem real_add_value (x y : Nat) : arith .add (.real x) (.real y) = .ok (.real (F64.addX x y)) := rfl
+theorem real_sub_value (x y : Nat) : arith .sub (.real x) (.real y) = .ok (.real (F64.subX x y)) := rfl
+theorem real_mul_value (x y : Nat) : arith .mul (.real x) (.real y) = .ok (.real (F64.mulX x y)) := rfl
+theorem real_div_value (x y : Nat) : arith .div (.real x) (.real y) = .ok (.real (F64.divX x y)) := rfl
+
+/-- … and **the sum of two finite REALs is a REAL nearest to their exact sum**: in units of 2^-1074 the operands are the
+integers `units x`, `units y`; when the result `r` is finite its magnitude is at least as close to `|units x + units y|` as
+that of every REAL `z` (round to nearest; a tie goes to the even mantissa, `DecFloat.magBits_tie_even`), and its sign is the
+sign of the exact sum. (An infinite result is overflow: `DecFloat.magBits_overflow_iff`.) -/
+theorem real_add_is_nearest (x y : Nat) (hx : F64.isFinite x = true) (hy : F64.isFinite y = true)
+    (hr : F64.isFinite (F64.addX x y) = true) (z : Nat) :
+    DecFloat.adist (F64.units x + F64.units y).natAbs (F64.umag (F64.addX x y)) ≤
+      DecFloat.adist (F64.units x + F64.units y).natAbs (F64.umag z) ∧
+    (F64.units x + F64.units y ≠ 0 → F64.signBit (F64.addX x y) = decide (F64.units x + F64.units y < 0)) :=
+  ⟨F64.addX_nearest x y hx hy hr z, F64.addX_sign x y hx hy⟩
+
+/-- when the exact sum is a REAL it is the result: no rounding where none is needed -/
+theorem real_add_exact (x y : Nat) (hx : F64.isFinite x = true) (hy : F64.isFinite y = true)
+    (h : F64.Repr (F64.units x + F64.units y)) :
+    F64.isFinite (F64.addX x y) = true ∧ F64.units (F64.addX x y) = F64.units x + F64.units y :=
+  ⟨(F64.addX_exact x y hx hy h).1, (F64.addX_exact x y hx hy h).2.2⟩
+
+/-- the product of two finite REALs, when finite, is a REAL nearest to the exact product `umag x · umag y` (in units of
+2^-2148; a REAL `z` is `umag z · 2^1074` of them); the sign is the XOR of the signs -/
+theorem real_mul_is_nearest (x y : Nat) (hx : F64.isFinite x = true) (hy : F64.isFinite y = true)
+    (hr : F64.isFinite (F64.mulX x y) = true) (z : Nat) :
+    DecFloat.adist (F64.umag x * F64.umag y) (F64.umag (F64.mulX x y) * F64.unitScale) ≤
+      DecFloat.adist (F64.umag x * F64.umag y) (F64.umag z * F64.unitScale) :=
+  F64.mulX_nearest x y hx hy hr z
+
+/-- the quotient of two finite REALs (divisor not zero), when finite, is a REAL nearest to the exact quotient
+`umag x / umag y` (cross-multiplied with the divisor) -/
+theorem real_div_is_nearest (x y : Nat) (hx : F64.isFinite x = true) (hy : F64.isFinite y = true) (hz : F64.mag y ≠ 0)
+    (hr : F64.isFinite (F64.divX x y) = true) (z : Nat) :
+    DecFloat.adist (F64.umag x * F64.unitScale) (F64.umag (F64.divX x y) * F64.umag y) ≤
+      DecFloat.adist (F64.umag x * F64.unitScale) (F64.umag z * F64.umag y) :=
+  F64.divX_nearest x y hx hy hz hr z
+
+/-- addition and multiplication of REALs commute, bit for bit (NaN results are the canonical NaN) -/
+theorem real_add_comm (x y : Nat) : arith .add (.real x) (.real y) = arith .add (.real y) (.real x) := by
+  rw [real_add_value, real_add_value, F64.addX_comm]
+theorem real_mul_comm (x y : Nat) : arith .mul (.real x) (.real y) = arith .mul (.real y) (.real x) := by
+  rw [real_mul_value, real_mul_value, F64.mulX_comm]
+
+/-! anchors (bit patterns; evaluated by the kernel) -/
+/-- `0.1 + 0.2 = 0.30000000000000004` -/
+example : F64.add 0x3fb999999999999a 0x3fc999999999999a = 0x3fd3333333333334 := by decide +kernel
+/-- `1e308 + 1e308 = inf`, `-1e308 - 1e308 = -inf` -/
+example : F64.add 0x7fe1ccf385ebc8a0 0x7fe1ccf385ebc8a0 = 0x7ff0000000000000 := by decide +kernel
+example : F64.sub 0xffe1ccf385ebc8a0 0x7fe1ccf385ebc8a0 = 0xfff0000000000000 := by decide +kernel
+/-- `5.0 / 2.0 = 2.5`, `1.0 / 3.0 = 0.3333333333333333`, `1.0 / 0.0 = inf`, `0.0 / 0.0 = NaN` -/
+example : F64.div 0x4014000000000000 0x4000000000000000 = 0x4004000000000000 := by decide +kernel
+example : F64.div 0x3ff0000000000000 0x4008000000000000 = 0x3fd5555555555555 := by decide +kernel
+example : F64.div 0x3ff0000000000000 0 = 0x7ff0000000000000 := by decide +kernel
+example : F64.div 0 0 = F64.canonNaN := by decide +kernel
+/-- `sqrt 2.25 = 1.5`, `sqrt 2.0 = 1.4142135623730951`, `sqrt -1.0 = NaN`, `sqrt -0.0 = -0.0` -/
+example : F64.sqrt 0x4002000000000000 = 0x3ff8000000000000 := by decide +kernel
+example : F64.sqrt 0x4000000000000000 = 0x3ff6a09e667f3bcd := by decide +kernel
+example : F64.sqrt 0xbff0000000000000 = F64.canonNaN := by decide +kernel
+example : F64.sqrt 0x8000000000000000 = 0x8000000000000000 := by decide +kernel
+/-- signed zeros: `x − x = +0.0`, `-0.0 + 0.0 = +0.0`, `-0.0 + -0.0 = -0.0`, `0.0 · -1.0 = -0.0` -/
+example : F64.sub 0x3ff8000000000000 0x3ff8000000000000 = 0 := by decide +kernel
+example : F64.add 0x8000000000000000 0 = 0 := by decide +kernel
+example : F64.add 0x8000000000000000 0x8000000000000000 = 0x8000000000000000 := by decide +kernel
+example : F64.mul 0 0xbff0000000000000 = 0x8000000000000000 := by decide +kernel
+/-- `inf − inf`, `0 · inf` are NaN; the smallest subnormal halves to zero (tie to even), `2^53 + 1` as an INT becomes `2^53` -/
+example : F64.sub 0x7ff0000000000000 0x7ff0000000000000 = F64.canonNaN := by decide +kernel
+example : F64.mul 0 0x7ff0000000000000 = F64.canonNaN := by decide +kernel
+example : F64.mul 1 0x3fe0000000000000 = 0 := by decide +kernel
+example : F64.ofInt 9007199254740993 = 0x4340000000000000 := by decide +kernel
+/-- whole expressions are evaluated by the kernel now: `(0.5 + 1.5) * 2.25 / 3.0 = 1.5` -/
+example : (match eval {} {} (.arith .div (.arith .mul (.arith .add (.value (.real 0x3fe0000000000000)) (.value (.real 0x3ff8000000000000)))
+    (.value (.real 0x4002000000000000))) (.value (.real 0x4008000000000000))) with | .ok (.real b) => some b | _ => none) = some 0x3ff8000000000000 := by
+  decide +kernel
 
 end Sqlgrep.Props.C03Func
